@@ -14,6 +14,7 @@ import (
 	"sync/atomic"
 	"time"
 
+	"mellium.im/xmpp"
 	"mellium.im/xmpp/jid"
 	"mellium.im/xmpp/muc"
 	"mellium.im/xmpp/mux"
@@ -31,6 +32,10 @@ type run struct {
 	rs    *common.RawSession
 	cl    *muc.Client
 	addrs []int
+	conf  nsConf // configuration of the session: the stanza namespace of its stream
+	ns    string
+	jsent []*replyShape // shape of the error reply sent to the pending join / leave
+	lsent []*replyShape
 
 	chans   []*muc.Channel
 	jst     []string // idle parked insel
@@ -68,14 +73,18 @@ func occ(a int) jid.JID {
 	return jid.MustParse(fmt.Sprintf("room%d@conf.example.net/nick%d", a%10, a/10))
 }
 
-func newRun(r *common.Run, addrs []int) (*run, error) {
+func newRun(r *common.Run, addrs []int, cf nsConf) (*run, error) {
 	ctl := c06.NewCtl("muc.join.select", "muc.leave.select")
-	rs, err := common.NewRawSession(0, "jabber:client", jid.MustParse("me@example.net/h"), jid.MustParse("example.net"))
+	var state xmpp.SessionState
+	if cf.ns == "jabber:server" {
+		state = xmpp.S2S
+	}
+	rs, err := common.NewRawSession(state, cf.ns, jid.MustParse("me@example.net/h"), jid.MustParse("example.net"))
 	if err != nil {
 		return nil, err
 	}
 	n := len(addrs)
-	x := &run{r: r, ctl: ctl, rs: rs, addrs: addrs, managed: map[int]int{}, everJoined: map[int]bool{}, feedCh: make(chan []byte, 1024)}
+	x := &run{r: r, ctl: ctl, rs: rs, addrs: addrs, conf: cf, ns: cf.ns, managed: map[int]int{}, everJoined: map[int]bool{}, feedCh: make(chan []byte, 1024)}
 	go func() {
 		// one writer: peer stanzas reach the session in the order they were fed
 		for b := range x.feedCh {
@@ -90,6 +99,7 @@ func newRun(r *common.Run, addrs []int) (*run, error) {
 	x.jready, x.lready = make([]string, n), make([]string, n)
 	x.jid, x.lid = make([]string, n), make([]string, n)
 	x.tok, x.member, x.refused = make([]bool, n), make([]bool, n), make([]bool, n)
+	x.jsent, x.lsent = make([]*replyShape, n), make([]*replyShape, n)
 	x.cur, x.req = append([]int(nil), addrs...), append([]int(nil), addrs...)
 	for i := range x.jst {
 		x.jst[i], x.lst[i] = "idle", "idle"
@@ -98,7 +108,7 @@ func newRun(r *common.Run, addrs []int) (*run, error) {
 		HandleInvite:       func(muc.Invitation) { ctl.Emit("cb", "invite", nil) },
 		HandleUserPresence: func(_ stanza.Presence, it muc.Item) { ctl.Emit("cb", "upres", it) },
 	}
-	m := mux.New("jabber:client", muc.HandleClient(x.cl))
+	m := mux.New(cf.ns, muc.HandleClient(x.cl))
 	ctl.Go("serve", func() {
 		err := rs.S.Serve(m)
 		x.serveRet.Store(fmt.Sprint(err))
@@ -114,7 +124,11 @@ func (x *run) lines() []string {
 	for _, a := range x.addrs {
 		l = append(l, strconv.Itoa(a))
 	}
-	return []string{x.r.Prop + " muc " + common.Join(l, ",") + " " + common.Join(x.trace, ",")}
+	tr := x.trace
+	if x.conf.tok != "" {
+		tr = append([]string{x.conf.tok}, tr...)
+	}
+	return []string{x.r.Prop + " muc " + common.Join(l, ",") + " " + common.Join(tr, ",")}
 }
 
 func isEv(who, what string) func(c06.Ev) bool {
@@ -175,7 +189,7 @@ func (x *run) syncQ() bool {
 	}
 	x.nsync++
 	id := fmt.Sprintf("sync%d", x.nsync)
-	x.feed(fmt.Sprintf(`<iq xmlns="jabber:client" type="get" id="%s" from="example.net"><ping xmlns="urn:xmpp:ping"/></iq>`, id))
+	x.feed(fmt.Sprintf(`<iq xmlns="%s" type="get" id="%s" from="example.net"><ping xmlns="urn:xmpp:ping"/></iq>`, x.ns, id))
 	deadline := time.Now().Add(watchdog)
 	for time.Now().Before(deadline) {
 		out := string(x.rs.Out.Bytes())
@@ -297,6 +311,8 @@ func (x *run) joinReturned(c int, e c06.Ev) {
 		x.trace = append(x.trace, fmt.Sprintf("R%dse", c))
 		if x.jready[c] != "err" {
 			x.r.Fail("join-error", "stanza-error-without-error-reply", x.lines(), fmt.Sprintf("Join of channel %d returned a stanza error nobody sent: %v", c, err))
+		} else {
+			x.checkReturned("Join", c, se, x.jsent[c])
 		}
 		cleanup()
 	case errors.Is(err, context.Canceled):
@@ -309,10 +325,14 @@ func (x *run) joinReturned(c int, e c06.Ev) {
 			x.r.Fail("join-success-iff", key, x.lines(), fmt.Sprintf("Join of channel %d returned %v (ready=%q)", c, err, x.jready[c]))
 		}
 		cleanup()
+	case x.jready[c] == "err":
+		// the room answered the join presence with an error and the call ended with something else
+		x.r.Fail("join-error", "room's-error-not-returned:"+x.jsent[c].class(), x.lines(), fmt.Sprintf("the room answered the join of channel %d with a stanza error (reply children %q, stanza namespace %s); Join returned %q instead of it", c, x.jsent[c].raw, x.ns, err))
+		x.problem("Join %d returned %v", c, err)
 	default:
 		x.problem("Join %d returned %v", c, err)
 	}
-	x.jready[c] = ""
+	x.jready[c], x.jsent[c] = "", nil
 }
 
 func (x *run) leaveReturned(c int, e c06.Ev) {
@@ -328,6 +348,11 @@ func (x *run) leaveReturned(c int, e c06.Ev) {
 		x.tok[c] = false
 	case errors.As(err, &se):
 		x.trace = append(x.trace, fmt.Sprintf("D%dse", c))
+		if x.lready[c] != "err" {
+			x.r.Fail("leave-returns", "stanza-error-without-error-reply", x.lines(), fmt.Sprintf("Leave of channel %d returned a stanza error nobody sent: %v", c, err))
+		} else {
+			x.checkReturned("Leave", c, se, x.lsent[c])
+		}
 		x.refused[c] = true
 		if cc, ok := x.managed[x.cur[c]]; ok && cc == c {
 			delete(x.managed, x.cur[c])
@@ -337,10 +362,13 @@ func (x *run) leaveReturned(c int, e c06.Ev) {
 		if x.lready[c] != "ctx" {
 			x.r.Fail("leave-returns", "leave-missed-unavailable-presence", x.lines(), fmt.Sprintf("Leave of channel %d returned %v (ready=%q, token=%v)", c, err, x.lready[c], x.tok[c]))
 		}
+	case x.lready[c] == "err":
+		x.r.Fail("leave-returns", "room's-error-not-returned:"+x.lsent[c].class(), x.lines(), fmt.Sprintf("the room answered the leave of channel %d with a stanza error (reply children %q, stanza namespace %s); Leave returned %q instead of it", c, x.lsent[c].raw, x.ns, err))
+		x.problem("Leave %d returned %v", c, err)
 	default:
 		x.problem("Leave %d returned %v", c, err)
 	}
-	x.lready[c] = ""
+	x.lready[c], x.lsent[c] = "", nil
 }
 
 func (x *run) feed(s string) { x.feedCh <- []byte(s) }
@@ -439,7 +467,7 @@ func (x *run) act(a string) bool {
 		if a[0] == 'U' {
 			typ = ` type="unavailable"`
 		}
-		st := fmt.Sprintf(`<presence xmlns="jabber:client" from="%s" to="me@example.net/h"%s>%s</presence>`, occ(ad), typ, item.xml())
+		st := fmt.Sprintf(`<presence xmlns="%s" from="%s" to="me@example.net/h"%s>%s</presence>`, x.ns, occ(ad), typ, item.xml())
 		x.lastItem = item
 		// processed: the serve loop has taken the presence and gone on (a handler that fails on a
 		// legal payload ends Serve: the presence was not processed)
@@ -520,14 +548,26 @@ func (x *run) act(a string) bool {
 			}
 		}
 	case strings.HasPrefix(a, "Ej"), strings.HasPrefix(a, "Xj"):
-		c := num(2)
-		if c >= len(x.addrs) || x.jst[c] == "idle" || x.jready[c] != "" || x.blocked {
+		spec := strings.SplitN(a[2:], ":", 2)
+		c, cerr := strconv.Atoi(spec[0])
+		var shape *replyShape
+		if len(spec) == 2 {
+			var sok bool
+			if shape, sok = parseReply(spec[1]); !sok || a[0] != 'E' {
+				return false
+			}
+		}
+		if cerr != nil || c >= len(x.addrs) || x.jst[c] == "idle" || x.jready[c] != "" || x.blocked {
 			return false
 		}
 		x.trace = append(x.trace, a)
 		if a[0] == 'E' {
 			x.jready[c] = "err"
-			x.feed(fmt.Sprintf(`<presence xmlns="jabber:client" from="%s" id="%s" type="error"><error type="cancel"><conflict xmlns="urn:ietf:params:xml:ns:xmpp-stanzas"/></error></presence>`, occ(x.req[c]), x.jid[c]))
+			if shape == nil {
+				shape = &replyShape{raw: "e", form: 'e'}
+			}
+			x.jsent[c] = shape
+			x.feed(fmt.Sprintf(`<presence xmlns="%s" from="%s" id="%s" type="error">%s</presence>`, x.ns, occ(x.req[c]), x.jid[c], shape.xml(x.ns, false)))
 		} else {
 			x.jready[c] = "ctx"
 			x.jcancel[c]()
@@ -592,14 +632,26 @@ func (x *run) act(a string) bool {
 			x.sync()
 		}
 	case strings.HasPrefix(a, "El"), strings.HasPrefix(a, "Xl"):
-		c := num(2)
-		if c >= len(x.addrs) || x.lst[c] == "idle" || x.lready[c] != "" || x.tok[c] || x.blocked {
+		spec := strings.SplitN(a[2:], ":", 2)
+		c, cerr := strconv.Atoi(spec[0])
+		var shape *replyShape
+		if len(spec) == 2 {
+			var sok bool
+			if shape, sok = parseReply(spec[1]); !sok || a[0] != 'E' {
+				return false
+			}
+		}
+		if cerr != nil || c >= len(x.addrs) || x.lst[c] == "idle" || x.lready[c] != "" || x.tok[c] || x.blocked {
 			return false
 		}
 		x.trace = append(x.trace, a)
 		if a[0] == 'E' {
 			x.lready[c] = "err"
-			x.feed(fmt.Sprintf(`<presence xmlns="jabber:client" from="%s" id="%s" type="error"><error type="cancel"><forbidden xmlns="urn:ietf:params:xml:ns:xmpp-stanzas"/></error></presence>`, occ(x.cur[c]), x.lid[c]))
+			if shape == nil {
+				shape = &replyShape{raw: "e", form: 'e'}
+			}
+			x.lsent[c] = shape
+			x.feed(fmt.Sprintf(`<presence xmlns="%s" from="%s" id="%s" type="error">%s</presence>`, x.ns, occ(x.cur[c]), x.lid[c], shape.xml(x.ns, true)))
 		} else {
 			x.lready[c] = "ctx"
 			x.lcancel[c]()
@@ -625,7 +677,7 @@ func (x *run) act(a string) bool {
 			return false
 		}
 		x.trace = append(x.trace, a) // for the model: an unrelated stanza
-		x.feed(fmt.Sprintf(`<presence xmlns="jabber:client" from="%s" id="%s" type="error"><error type="cancel"><forbidden xmlns="urn:ietf:params:xml:ns:xmpp-stanzas"/></error></presence>`, occ(x.cur[c]), id[c]))
+		x.feed(fmt.Sprintf(`<presence xmlns="%s" from="%s" id="%s" type="error"><error type="cancel"><forbidden xmlns="urn:ietf:params:xml:ns:xmpp-stanzas"/></error></presence>`, x.ns, occ(x.cur[c]), id[c]))
 		before := len(x.problems)
 		x.sync()
 		if len(x.problems) > before {
@@ -645,7 +697,7 @@ func (x *run) act(a string) bool {
 		x.trace = append(x.trace, "I"+kids)
 		before := x.inv
 		var sb strings.Builder
-		sb.WriteString(`<message xmlns="jabber:client" from="room0@conf.example.net" to="me@example.net/h">`)
+		sb.WriteString(`<message xmlns="` + x.ns + `" from="room0@conf.example.net" to="me@example.net/h">`)
 		want := 0
 		for _, k := range kids {
 			switch k {
@@ -680,7 +732,7 @@ func (x *run) act(a string) bool {
 		}
 		x.trace = append(x.trace, a)
 		bu, bi := x.upres, x.inv
-		x.feed(`<message xmlns="jabber:client" type="chat" from="room0@conf.example.net/nick0"><body>hi</body></message><presence xmlns="jabber:client" from="room0@conf.example.net/nick0"/><presence xmlns="jabber:client" from="room1@conf.example.net/nick1" type="unavailable"/>`)
+		x.feed(strings.ReplaceAll(`<message xmlns="NS" type="chat" from="room0@conf.example.net/nick0"><body>hi</body></message><presence xmlns="NS" from="room0@conf.example.net/nick0"/><presence xmlns="NS" from="room1@conf.example.net/nick1" type="unavailable"/>`, "NS", x.ns))
 		x.sync()
 		x.callbacks()
 		if x.upres != bu || x.inv != bi {
@@ -728,15 +780,16 @@ func (x *run) epilogue() string {
 }
 
 func runCase(r *common.Run, addrs []int, sched []string, class string) {
-	runCaseWith(r, addrs, func(x *run) {
+	cf, sched := splitConf(sched) // an optional first token names the configuration of the session
+	runCaseWith(r, addrs, cf, func(x *run) {
 		for _, a := range sched {
 			x.act(a)
 		}
 	}, class)
 }
 
-func runCaseWith(r *common.Run, addrs []int, body func(x *run), class string) {
-	x, err := newRun(r, addrs)
+func runCaseWith(r *common.Run, addrs []int, cf nsConf, body func(x *run), class string) {
+	x, err := newRun(r, addrs, cf)
 	if err != nil {
 		r.Notes = append(r.Notes, "session setup failed: "+err.Error())
 		return
@@ -862,7 +915,7 @@ func randSched(rnd *common.Rand, n, length int) []string {
 		case 8, 9, 10:
 			out = append(out, "U"+a+randPayload(rnd))
 		case 11:
-			out = append(out, "Ej"+c)
+			out = append(out, "Ej"+c+randReply(rnd))
 		case 12:
 			out = append(out, "Xj"+c)
 		case 13, 14:
@@ -873,7 +926,7 @@ func randSched(rnd *common.Rand, n, length int) []string {
 		case 15:
 			out = append(out, "l"+c)
 		case 16:
-			out = append(out, "El"+c)
+			out = append(out, "El"+c+randReply(rnd))
 		case 17:
 			out = append(out, "Z"+string("jl"[rnd.Intn(2)])+c)
 		case 18:
@@ -964,6 +1017,7 @@ func Run(r *common.Run) error {
 		r.Mark("case payload %d", n)
 		runCase(r, []int{0}, []string{"J0", "s0", "A0:" + p, "A0:" + p, "L0", "l0", "U0:" + p}, "payload")
 	}
+	nRep := runReplies(r)
 	nC := runContention(r)
 	nR := r.Pick(1200, 20000)
 	for n := 0; n < nR && len(r.Failures) < 80 && r.Hist["problem"] < 25; n++ {
@@ -976,8 +1030,8 @@ func Run(r *common.Run) error {
 				addrs[i] = []int{0, 10}[r.Rnd.Intn(2)] // a second channel for room 0: same or other nickname
 			}
 		}
-		runCase(r, addrs, randSched(r.Rnd, k, 6+r.Rnd.Intn(30)), "random")
+		runCase(r, addrs, append(randConf(r.Rnd), randSched(r.Rnd, k, 6+r.Rnd.Intn(30))...), "random")
 	}
-	r.Notes = append(r.Notes, fmt.Sprintf("histories: %d corpus + %d payloads (affiliation x role x status codes x item shapes) + %d contention (macro operations on channels sharing an occupant address / swapping nicknames, exhaustive) + %d random (1-3 channels, presences also for an address nobody joined, random payloads)", len(corpus), len(pls), nC, nR))
+	r.Notes = append(r.Notes, fmt.Sprintf("histories: %d corpus + %d payloads (affiliation x role x status codes x item shapes) + %d error replies (stanza namespace of the session x echoed children x form of the error) + %d contention (macro operations on channels sharing an occupant address / swapping nicknames, exhaustive) + %d random (1-3 channels, presences also for an address nobody joined, random payloads)", len(corpus), len(pls), nRep, nC, nR))
 	return nil
 }
